@@ -288,7 +288,10 @@ func runCase(r *vh.Run, sp caseSpec) {
 			defer wg.Done()
 			defer answered.Add(1)
 			c := conns[k%sessPerCase]
-			ex := c.Post(ctx, reqBody(id, sp.Method), kit.PostOpts{WantID: kit.CanonID(json.RawMessage(fmt.Sprintf("%q", id))), Wait: 30 * time.Second})
+			ex := c.Post(ctx, reqBody(id, sp.Method), kit.PostOpts{WantID: kit.CanonID(json.RawMessage(fmt.Sprintf("%q", id))), Wait: postWait()})
+			if ex.TimedOut {
+				watchdogFired.Add(1)
+			}
 			o := reqOutcome{ID: id, Sess: k % sessPerCase, Frames: ex.Frames, Timed: ex.TimedOut}
 			if ex.HTTP != nil {
 				o.Status, o.HTTPErr = ex.HTTP.Status, ex.HTTP.Err
@@ -314,8 +317,11 @@ func runCase(r *vh.Run, sp caseSpec) {
 		kit.G.Open(cs.gate)
 	}
 	wg.Wait()
-	if m := cs.maxInflight.Load(); m > maxOverlap.Load() {
-		maxOverlap.Store(m)
+	for m := cs.maxInflight.Load(); ; {
+		cur := maxOverlap.Load()
+		if m <= cur || maxOverlap.CompareAndSwap(cur, m) {
+			break
+		}
 	}
 	r.Max("requests_inside_chain_at_once", cs.maxInflight.Load())
 
@@ -354,7 +360,7 @@ func runCase(r *vh.Run, sp caseSpec) {
 		if !reflect.DeepEqual(stagesOf(got), want) && !(len(got) == 0 && len(want) == 0) {
 			ok = false
 			if o.Timed && len(o.Frames) == 0 && len(got) < len(want) {
-				r.Inconclusive(fmt.Sprintf("%s: request %s did not finish within 30 s (trace %d of %d stages)", label, o.ID, len(got), len(want)))
+				r.Inconclusive(fmt.Sprintf("%s: request %s did not finish before the watchdog (trace %d of %d stages)", label, o.ID, len(got), len(want)))
 				continue
 			}
 			r.Violation(fmt.Sprintf("C15|%s|%s|%s|stop=%s|%s", sp.Scenario, sp.Kind, sp.Method, stop, traceSymptom(want, stagesOf(got))),
@@ -373,7 +379,7 @@ func runCase(r *vh.Run, sp caseSpec) {
 		if sym, what := judgeWire(o, v, sp.Method); sym != "" {
 			ok = false
 			if sym == "missing-answer" && o.Timed && len(got) < len(want) {
-				r.Inconclusive(fmt.Sprintf("%s: request %s unanswered after 30 s with an unfinished trace", label, o.ID))
+				r.Inconclusive(fmt.Sprintf("%s: request %s unanswered at the watchdog with an unfinished trace", label, o.ID))
 			} else {
 				r.Violation(fmt.Sprintf("C15|%s|%s|%s|outcome=%s|%s", sp.Scenario, sp.Kind, sp.Method, v.Origin, sym),
 					fmt.Sprintf("%s: request %s: %s", label, o.ID, what), wit)
@@ -556,6 +562,29 @@ func judgeSessions(r *vh.Run, sp caseSpec, label string, o reqOutcome, sessID st
 	}
 }
 
+var watchdogFired atomic.Int64
+
+// notifWait: how long to wait for a notification handler. Streamable servers run it before the POST returns, so
+// there is nothing to wait for; the legacy server runs it in a goroutine. After a few expiries the watchdog is
+// shortened so that a tree on which no notification is ever delivered cannot stall the run (the cases stay inconclusive).
+func notifWait(k kit.Kind) time.Duration {
+	switch {
+	case k != kit.LSSE:
+		return 0
+	case watchdogFired.Load() > 4:
+		return 300 * time.Millisecond
+	}
+	return 10 * time.Second
+}
+
+// postWait: watchdog for an answer on the asynchronous legacy stream, shortened after repeated expiries.
+func postWait() time.Duration {
+	if watchdogFired.Load() > 4 {
+		return time.Second
+	}
+	return 30 * time.Second
+}
+
 func waitFor(d time.Duration, cond func() bool) bool {
 	deadline := time.Now().Add(d)
 	for !cond() {
@@ -571,7 +600,8 @@ func judgeNotifications(r *vh.Run, sp caseSpec, label string, cs *caseState, con
 	n := len(sp.Chain)
 	// the two notifications/initialized of the handshakes: delivered, and the chain saw only what the model counts
 	r.Eval(1)
-	if !waitFor(10*time.Second, func() bool { return cs.notifCount("notifications/initialized") >= len(conns) }) {
+	if !waitFor(notifWait(sp.Kind), func() bool { return cs.notifCount("notifications/initialized") >= len(conns) }) {
+		watchdogFired.Add(1)
 		r.Inconclusive(fmt.Sprintf("%s: notifications/initialized handler ran %d times for %d handshakes", label, cs.notifCount("notifications/initialized"), len(conns)))
 	} else {
 		r.Count("notifications_delivered", int64(len(conns)))
@@ -587,8 +617,9 @@ func judgeNotifications(r *vh.Run, sp caseSpec, label string, cs *caseState, con
 			if ex.HTTP != nil {
 				st = ex.HTTP.Status
 			}
-			if !waitFor(10*time.Second, func() bool { return cs.notifCount(m) > had }) {
-				r.Inconclusive(fmt.Sprintf("%s: notification %s (status %d) did not reach its handler within 10 s", label, m, st))
+			if !waitFor(notifWait(sp.Kind), func() bool { return cs.notifCount(m) > had }) {
+				watchdogFired.Add(1)
+				r.Inconclusive(fmt.Sprintf("%s: notification %s (status %d) did not reach its handler", label, m, st))
 				continue
 			}
 			r.Count("notifications_delivered", 1)
